@@ -283,6 +283,19 @@ func oneMain(t *testing.T) {
 		fmt.Fprintf(os.Stderr, "unknown check %s\n", caseKey(&c))
 		os.Exit(2)
 	}
+	if d := envInt("VERIF_CHILD_SELFDUMP_S", 0); d > 0 {
+		// a case that does not finish: dump every goroutine from inside (runtime.Stack stops the
+		// world, so the goroutine that is busy gets a stack too, which a SIGQUIT dump cannot give
+		// for a goroutine running on another thread) and leave
+		go func() {
+			time.Sleep(time.Duration(d) * time.Second)
+			buf := make([]byte, 64<<20)
+			n := runtime.Stack(buf, true)
+			os.Stderr.WriteString("\nWATCHDOG-DUMP\n")
+			os.Stderr.Write(buf[:n])
+			os.Exit(4)
+		}()
+	}
 	o := ck.Run(t, &c)
 	for i := range o.Violations {
 		vb, _ := json.Marshal(&o.Violations[i])
@@ -375,9 +388,17 @@ func runIsolatedT(bin string, c *Case, override time.Duration) *Outcome {
 	f.Close()
 	defer os.Remove(f.Name())
 	cmd := exec.Command(bin, "-test.run", "^TestEntry$", "-test.timeout", "0")
-	cmd.Env = append(os.Environ(), "VERIF_MODE=one", "VERIF_CASE="+f.Name(), "GOMAXPROCS=1")
+	cmd.SysProcAttr = &syscall.SysProcAttr{Pdeathsig: syscall.SIGKILL} // never outlive the process that asked
+	// GOTRACEBACK=crash: on SIGQUIT every thread dumps its own stack, so the goroutine that is
+	// running at that instant (the interesting one in a live-lock) is not "stack unavailable"
+	limitS := envInt("VERIF_CHILD_TIMEOUT_S", 90)
+	if override > 0 {
+		limitS = int64(override / time.Second)
+	}
+	selfdump := fmt.Sprintf("VERIF_CHILD_SELFDUMP_S=%d", limitS-5)
+	cmd.Env = append(os.Environ(), "VERIF_MODE=one", "VERIF_CASE="+f.Name(), "GOMAXPROCS=1", selfdump)
 	if c.Build == "lockstep" {
-		cmd.Env = append(os.Environ(), "VERIF_MODE=one", "VERIF_CASE="+f.Name(), "GOMAXPROCS=8")
+		cmd.Env = append(os.Environ(), "VERIF_MODE=one", "VERIF_CASE="+f.Name(), "GOMAXPROCS=8", selfdump)
 	}
 	var stdout, stderr bytes.Buffer
 	cmd.Stdout = &stdout
@@ -404,8 +425,14 @@ func runIsolatedT(bin string, c *Case, override time.Duration) *Outcome {
 			}
 		}
 	}
+	if !hung && strings.Contains(stderr.String(), "\nWATCHDOG-DUMP\n") {
+		hung = true // the child's own watchdog fired first
+	}
 	if hung {
 		all := stderr.String()
+		if i := strings.Index(all, "\nWATCHDOG-DUMP\n"); i >= 0 {
+			all = all[i:]
+		}
 		os.WriteFile(filepath.Join(dir, fmt.Sprintf("hang-%d.txt", os.Getpid())), []byte(all), 0644)
 		if frame := runningFrame(all); frame != "" {
 			o.violate(c.Prop, "livelock", -1, 0, map[string]string{"frame": frame}, "the simulated broker never became idle: a goroutine kept running in %s (child killed after %v)", frame, time.Duration(envInt("VERIF_CHILD_TIMEOUT_S", 90))*time.Second)
@@ -590,6 +617,7 @@ func driverMain(t *testing.T) int {
 				wctx, wcancel := context.WithTimeout(context.Background(), time.Duration(budgetS*2+420)*time.Second)
 				defer wcancel()
 				cmd := exec.CommandContext(wctx, bin, "-test.run", "^TestEntry$", "-test.timeout", "0")
+				cmd.SysProcAttr = &syscall.SysProcAttr{Pdeathsig: syscall.SIGKILL} // workers die with the driver
 				gmp := "1"
 				gorace := "halt_on_error=0"
 				if ck.Build == "lockstep" {
@@ -891,6 +919,7 @@ func selftestMain() int {
 						go func(k int) {
 							defer iw.Done()
 							cmd := exec.Command(bin, "-test.run", "^TestEntry$", "-test.timeout", "0")
+							cmd.SysProcAttr = &syscall.SysProcAttr{Pdeathsig: syscall.SIGKILL}
 							if ck.Build == "lockstep" && gmp == "1" {
 								gmp = "2"
 							}
@@ -985,7 +1014,9 @@ func runningFrame(dump string) string {
 		if len(lines) == 0 || !strings.HasPrefix(lines[0], "goroutine ") {
 			continue
 		}
-		if !strings.Contains(lines[0], "[running") && !strings.Contains(lines[0], "[runnable") {
+		// "GC assist": a goroutine that allocates so fast that it is made to help the collector
+		// is a running goroutine as far as the broker is concerned
+		if !strings.Contains(lines[0], "[running") && !strings.Contains(lines[0], "[runnable") && !strings.Contains(lines[0], "[GC assist") {
 			continue
 		}
 		for _, l := range lines[1:] {
